@@ -88,5 +88,6 @@ Definition run (cmd : N) (arg : sx) : sx :=
   | 140 => run_c14_0 arg
   | 141 => run_c14_1 arg
   | 142 => run_c14_2 arg
+  | 143 => run_c14_3 arg
   | _ => L [A 999999]
   end.
